@@ -503,6 +503,72 @@ func (ps *prodScen) runSync(actors []int, byActor map[int][]*cf.Op, closeThink i
 	}
 	ps.handle, ps.epoch0 = p, sarama.VerifProducerEpoch(p)
 	var wg sync.WaitGroup
+	// C12: at the close point the producer is closed while callers may still be waiting for the outcome of messages
+	// they have handed over (never while one is about to hand a message over: sending on a closing producer's
+	// input is the application's fault). inCall[a] lists the messages of actor a's current call.
+	var callMu sync.Mutex
+	inCall := map[int][]*msgInfo{}
+	enter := func(a int, mis []*msgInfo) bool {
+		callMu.Lock()
+		defer callMu.Unlock()
+		if ps.closeRequested || ps.r.closing() {
+			return false
+		}
+		inCall[a] = mis
+		return true
+	}
+	leave := func(a int) {
+		callMu.Lock()
+		delete(inCall, a)
+		callMu.Unlock()
+	}
+	earlyClosed := make(chan struct{})
+	if ps.c.CloseAt != nil {
+		go func() {
+			select {
+			case <-ps.r.closeNow:
+			case <-earlyClosed:
+				return
+			}
+			// wait (a little) until every message of every call in progress has reached a broker, i.e. is past Input()
+			for i := 0; i < 200; i++ {
+				callMu.Lock()
+				pending := false
+				for _, mis := range inCall {
+					for _, mi := range mis {
+						if mi.wireUs < 0 && len(mi.events) == 0 {
+							pending = true
+						}
+					}
+				}
+				busy := len(inCall) > 0
+				callMu.Unlock()
+				if !pending {
+					if !busy {
+						return // nobody is waiting: the ordinary path closes the producer
+					}
+					break
+				}
+				time.Sleep(250 * time.Microsecond)
+				if i == 199 {
+					return
+				}
+			}
+			callMu.Lock()
+			if ps.closeRequested {
+				callMu.Unlock()
+				return
+			}
+			ps.closeRequested = true
+			callMu.Unlock()
+			ps.r.probe("sync-producer-closed-while-callers-wait")
+			k.logf("Close() (close point, SendMessage callers waiting)")
+			_ = p.Close()
+			ps.closeReturned = true
+			k.logf("Close returned")
+			close(earlyClosed)
+		}()
+	}
 	for _, a := range actors {
 		ops := byActor[a]
 		wg.Add(1)
@@ -519,9 +585,14 @@ func (ps *prodScen) runSync(actors []int, byActor map[int][]*cf.Op, closeThink i
 				n := op.N // batch size for SendMessages (0/1 = SendMessage)
 				if n <= 1 {
 					m, mi := ps.newMessage(op, i)
+					if !enter(a, []*msgInfo{mi}) {
+						return
+					}
+					defer leave(a)
 					mi.submitUs, mi.submitE, mi.submitted = k.nowUs(), k.stamp(), true
 					k.logf("SendMessage m%d", mi.id)
 					part, off, err := p.SendMessage(m)
+					leave(a)
 					mi.syncRet++
 					ev := pevent{ok: err == nil, err: err, partition: part, offset: off, e: k.stamp(), us: k.nowUs()}
 					mi.events = append(mi.events, ev)
@@ -540,8 +611,12 @@ func (ps *prodScen) runSync(actors []int, byActor map[int][]*cf.Op, closeThink i
 					batch = append(batch, m)
 					infos = append(infos, mi)
 				}
+				if !enter(a, infos) {
+					return
+				}
 				k.logf("SendMessages x%d first m%d", n, infos[0].id)
 				err := p.SendMessages(batch)
+				leave(a)
 				failed := map[*sarama.ProducerMessage]error{}
 				if pe, ok := err.(sarama.ProducerErrors); ok {
 					for _, e := range pe {
@@ -569,15 +644,34 @@ func (ps *prodScen) runSync(actors []int, byActor map[int][]*cf.Op, closeThink i
 		}()
 	}
 	wg.Wait()
+	callMu.Lock()
+	early := ps.closeRequested
+	callMu.Unlock()
+	if early {
+		<-earlyClosed
+		ps.succClosed, ps.errClosed = true, true
+		return
+	}
 	if closeThink > 0 {
 		ps.r.nap(time.Duration(closeThink) * time.Microsecond)
 	}
+	callMu.Lock()
+	early = ps.closeRequested
 	ps.closeRequested = true
+	callMu.Unlock()
+	if early {
+		<-earlyClosed
+		ps.succClosed, ps.errClosed = true, true
+		return
+	}
 	k.logf("Close()")
 	_ = p.Close()
 	ps.closeReturned = true
 	ps.succClosed, ps.errClosed = true, true
 	k.logf("Close returned")
+	if ps.c.CloseAt != nil {
+		close(earlyClosed)
+	}
 }
 
 func infoID(m *sarama.ProducerMessage) interface{} {
@@ -662,6 +756,9 @@ func (ps *prodScen) onHang(dump string) {
 	}
 	if ps.closeRequested && !ps.closeReturned {
 		ps.r.violate("C12.close-hang", "producer shutdown did not complete; parked: %v", frames)
+	}
+	if ps.c.Config.Sync && ps.closeRequested && ps.closeReturned && len(lost) > 0 {
+		ps.r.violate("C12.close-hang", "SyncProducer.Close returned but callers of SendMessage(s) are still blocked waiting for the outcome of %v; parked: %v", lost, frames)
 	}
 	// C16: a buffered message is sent once a configured trigger fires, without waiting for further input.
 	// With Flush.Frequency set (or no trigger at all) every accepted message must reach the wire.
